@@ -920,6 +920,16 @@ func (s *BaseNodeService) processMessage(message storage.Message) (*types.Operat
 		}
 	}
 
+	// The operation is stored by the caller after the round has been saved. If it is already in
+	// the pool (a copy of an earlier signing proposal - anyone can append one - while this node's
+	// answer to it is outstanding) the message has to be refused here, before anything durable
+	// changes.
+	if operation != nil && fsm.Event(message.Event) == sif.EventSigningStart {
+		if _, err := s.opService.GetOperationByID(operation.ID); err == nil {
+			return nil, fmt.Errorf("operation %s already exists", operation.ID)
+		}
+	}
+
 	// save signing data to the same storage as we save signatures
 	// This allows easy to view signing data by CLI-command
 	if fsm.Event(message.Event) == sif.EventSigningStart {
